@@ -2492,10 +2492,14 @@ hsStateDetermined:
                     ssl->fragMsn = msn;
                 }
 
-                if (ssl->fragMsn != msn)
+                if (ssl->fragMsn != msn || ssl->fragLenStored != hsLen ||
+                    fragLen == 0)
                 {
 /*
-                    Got a fragment from a different msg.  Ignore
+                    Got a fragment from a different msg, or one that
+                    disagrees about the message length, or an empty one
+                    (storing it would block its offset and stall
+                    dtlsHsHashFragMsg).  Ignore
  */
                     return MATRIXSSL_SUCCESS;
                 }
@@ -2533,6 +2537,26 @@ hsStateDetermined:
                     psTraceIntDtls("Fragment outside range [0...%d]: ignored\n",
                                    (int) hsLen);
                     return MATRIXSSL_ERROR;
+                }
+/*
+                fragTotal counts bytes received: a fragment that overlaps one
+                already stored would be counted twice and the message would
+                be declared complete with bytes never written.  Ignore it;
+                the peer's retransmission will fill the gap.
+*/
+                {
+                    int32 k;
+
+                    for (k = 0; k < j; k++)
+                    {
+                        if (fragOffset < ssl->fragHeaders[k].offset +
+                            (int32) ssl->fragHeaders[k].fragLen &&
+                            ssl->fragHeaders[k].offset <
+                            fragOffset + (int32) fragLen)
+                        {
+                            return MATRIXSSL_SUCCESS;
+                        }
+                    }
                 }
 
 /*
